@@ -50,7 +50,7 @@ def gl_symmetric():
 def correspondence(ctx):
     rng = ctx.rng("corr")
     scenes = []
-    for kind, N, psf, opts in RC.standard_configs(rng, ctx.tier, sizes=[(16, 7), (13, 6), (20, 9)] if ctx.tier == "quick" else None):
+    for kind, N, psf, opts in RC.standard_configs(rng, ctx.tier, sizes=[(16, 7), (13, 6), (18, 9)] if ctx.tier == "quick" else None):
         for i in range(3 if ctx.tier == "quick" else 10):
             scenes.append(RC.gen_scene(rng, kind, N, psf, types=[str(rng.choice(EXT))], mode="single",
                                        pos_styles=("int", "half", "frac"), **opts))
@@ -84,7 +84,7 @@ def gen_oracle_scenes(ctx, n_per_kind):
     out = []
     for kind in ("pixel", "fourier", "hybrid"):
         for i in range(n_per_kind):
-            N = int(rng.choice([32, 40, 48]))
+            N = [42, 32, 41, 50, 48, 33][i % 6]     # every residue of N mod 4 (the oversampled box is placed by integer division)
             s = int(rng.choice([15, 16, 17]))
             psf = wellsampled_psf(rng, s)
             t = EXT[i % len(EXT)]
